@@ -65,6 +65,16 @@ def configs(tier, seed):
                      script=[['announce', 0], ['flush'], ['announce', 0]]))
     cfgs.append(dict(backend='dict', backoff='r10', n=2, messages=0, prestored=1, harness_wait=True, slow_ops=['get'], d=3, dd=1, menu=MENU,
                      script=[['announce', 0], ['announce', 0]]))
+    # an announcement for a message whose attempt is running, with a storage read that outlasts the attempt
+    for bo in ('r0x2', 'r10'):
+        cfgs.append(dict(backend='dict', backoff=bo, n=2, messages=1, harness_wait=True, slow_ops=['get'], d=3, dd=1, menu=MENU,
+                         script=[['enqueue', 0], ['announce', 0]]))
+    cfgs.append(dict(backend='redis', backoff='r0x2', n=2, messages=1, redis_yields=['hmget'], d=3, dd=1, menu=MENU))
+    for b in ('shelf', 'disk'):
+        cfgs.append(dict(backend=b, backoff='r0x2', n=2, messages=1, harness_wait=True, slow_ops=['get-late'], d=3, dd=1, menu=MENU,
+                         script=[['enqueue', 0], ['announce', 0]]))
+        cfgs.append(dict(backend=b, backoff='r10', n=2, messages=0, prestored=1, harness_wait=True, slow_ops=['get-late'], d=3, dd=1, menu=MENU,
+                         script=[['announce', 0], ['announce', 0]]))
     for b in ('disk', 'redis'):
         cfgs.append(dict(backend=b, backoff='r0x2', n=3, messages=1, d=0, dd=3, menu=dict(MENU, reversed_maps=True)))
     # ... and by the cloud message queue
